@@ -131,21 +131,159 @@ def install(handler, g):
             target = {"F.linear": F.linear, "U.linear": U.linear, "F.scaled_dot_product_attention": F.scaled_dot_product_attention, "U.scaled_dot_product_attention": U.scaled_dot_product_attention}[key]
             torch.manual_seed(0)
             d = 4
-            vals = {"input": torch.randn(2, d), "weight": torch.randn(d, d), "bias": torch.randn(d), "constraint": None, "scale_power": (0.5, 0.5, 0.5), "query": torch.randn(1, 2, 3, d), "key": torch.randn(1, 2, 3, d), "value": torch.randn(1, 2, 3, d), "attn_mask": None, "dropout_p": 0.0, "is_causal": False, "scale": None, "mult": 1.0}
-            g = fx.Graph()
-            ph = {n: g.placeholder(n) for n in pos + kw}
-            node = g.call_function(target, tuple(ph[n] for n in pos), {n: ph[n] for n in kw})
-            g.output(node)
-            want = target(*[vals[n] for n in pos], **{n: vals[n] for n in kw})
-            try:
-                sf._replace_with_quantised(g, node, FPFormat(8, 23, "nearest"), FPFormat(8, 23, "nearest"))
-                gm = fx.GraphModule(torch.nn.Module(), g)
-                got = gm(*[vals[n] for n in pos + kw])
-            except Exception as e:
-                return True, f"{key}({', '.join(pos)}{', ' if kw else ''}{', '.join(k + '=' for k in kw)}) after the rewrite: {type(e).__name__}: {e}"
-            return (not torch.equal(got, want)), "rewritten call differs from the original with a lossless format" if not torch.equal(got, want) else "rewritten call runs and agrees"
+            vals = {"input": torch.randn(2, d), "weight": torch.randn(6, d), "bias": torch.randn(6), "constraint": None, "scale_power": (0.5, 0.5, 0.5), "query": torch.randn(1, 2, 3, d), "key": torch.randn(1, 2, 3, d), "value": torch.randn(1, 2, 3, d), "attn_mask": None, "dropout_p": 0.0, "is_causal": False, "scale": None, "mult": 1.0}
+            first = pos[0] if pos else kw[0]
+            for trial in ({}, {"constraint": None}, {"constraint": "to_grad_input_scale"}):
+                v2 = dict(vals, **{k_: v_ for k_, v_ in trial.items() if k_ in pos + kw})
+                v2[first] = vals[first].clone().requires_grad_(True)
+                want = target(*[v2[n] for n in pos], **{n: v2[n] for n in kw})
+                (gw,) = torch.autograd.grad(want.sum(), v2[first])
+                g = fx.Graph()
+                ph = {n: g.placeholder(n) for n in pos + kw}
+                node = g.call_function(target, tuple(ph[n] for n in pos), {n: ph[n] for n in kw})
+                g.output(node)
+                try:
+                    sf._replace_with_quantised(g, node, FPFormat(8, 23, "nearest"), FPFormat(8, 23, "nearest"))
+                    gm = fx.GraphModule(torch.nn.Module(), g)
+                    got = gm(*[v2[n] for n in pos + kw])
+                    (gg,) = torch.autograd.grad(got.sum(), v2[first])
+                except Exception as e:
+                    return True, f"{key}({', '.join(pos)}{', ' if kw else ''}{', '.join(k + '=' for k in kw)}) after the rewrite: {type(e).__name__}: {e}"
+                if not (torch.equal(got, want) and torch.allclose(gg, gw, rtol=1e-6, atol=1e-7)):
+                    return True, f"with a lossless format the rewritten call differs from the original ({trial or 'default options'}): output equal={torch.equal(got, want)}, max gradient difference {float((gg - gw).abs().max()):.3g}"
+            return False, "rewritten call runs and agrees (outputs and gradients) with a lossless format"
         return False, "no concrete replay rule; see the verifier output in the replay file"
 
+    def replay_ste_cache(rj):
+        """history: a coarse-srbits format first, then the same E/M/rounding with other srbits"""
+        from unit_scaling.formats import FPFormat
+
+        real_randint = torch.randint
+        bad = []
+        for which in ("quantise_fwd", "quantise_bwd"):
+            for first, second in ((FPFormat(5, 10, "stochastic", 1), FPFormat(5, 10)), (FPFormat(4, 3, "stochastic", 1), FPFormat(4, 3, "stochastic", 6))):
+                x = torch.linspace(0.1, 3.0, 64)
+                calls = []
+
+                def fake(lo, hi, size, **kw):
+                    calls.append(hi)
+                    return torch.full(tuple(size), hi - 1, dtype=kw.get("dtype", torch.int64))
+
+                torch.randint = fake
+                try:
+                    for f in (first, second):
+                        xin = x.clone().requires_grad_(True)
+                        y = getattr(f, which)(xin)
+                        y.backward(x.clone())
+                finally:
+                    torch.randint = real_randint
+                want = [2 ** first.srbits, 2 ** second.srbits]
+                if calls != want:
+                    bad.append(f"{which}: {first!r} then {second!r} drew random integers below {calls}, expected {want}")
+        return bool(bad), "; ".join(bad[:2]) or "each format uses its own number of random bits"
+
+    def replay_c17(rj):
+        from unit_scaling.transforms.utils import _compose_backends
+
+        ob = rj["obligation"]
+        if "_compose_backends" in ob:
+            log = []
+
+            class GM:
+                pass
+
+            def mk(name):
+                def b(gm, ex):
+                    log.append(name)
+                    return GM()
+
+                return b
+
+            comp = _compose_backends([mk("b1"), mk("b2")])
+            comp(GM(), [])
+            first = list(log)
+            comp(GM(), [])
+            second = log[len(first):]
+            bad = first != ["b1", "b2"] or second != ["b1", "b2"]
+            return bad, f"backends applied on the first compilation: {first}; on a re-compilation: {second}"
+        return False, "no concrete replay rule; see the verifier output in the replay file"
+
+    def replay_c18(rj):
+        from unit_scaling.transforms._track_scales import ScaleTrackingAutogradFunction
+
+        ob = rj["obligation"]
+        if "ScaleTrackingAutogradFunction" in ob:
+            meta = {}
+            t = torch.randn(5, requires_grad=True)
+            y = ScaleTrackingAutogradFunction.apply(t, meta)
+            y.sum().backward()
+            had_bwd = meta["metrics"].bwd is not None
+            t2 = torch.randn(5, requires_grad=True)
+            y2 = ScaleTrackingAutogradFunction.apply(t2, meta)  # second run, forward only
+            stale = meta["metrics"].bwd is not None
+            same = torch.equal(y2, t2)
+            return (stale or not same or not had_bwd), f"after a forward+backward run and a second forward-only run of the same node: backward metrics still present={stale}; forward value unchanged={same}"
+        if "run_node" in ob:
+            import torch.fx as fx
+            from unit_scaling.transforms._track_scales import ScaleTrackingInterpreter
+
+            class M(torch.nn.Module):
+                def forward(self, x):
+                    h = x * 2.0
+                    a = h.contiguous()  # returns the same tensor object
+                    return (a * 3.0).sum() + (h * h).sum()
+
+            gm = fx.symbolic_trace(M())
+            it = ScaleTrackingInterpreter(gm)
+            x = torch.randn(4, requires_grad=True)
+            out = it.run(x)
+            out.backward()
+            nodes = {n.name: n for n in gm.graph.nodes}
+            mh, ma = nodes["mul"].meta.get("metrics"), nodes["contiguous"].meta.get("metrics")
+            if ma is None or mh is None:
+                return True, "a float node has no metrics"
+            want_a = 3.0  # gradient reaching `a` is 3 everywhere
+            bad = ma is mh or ma.bwd is None or abs(ma.bwd.mean_abs - want_a) > 1e-6
+            return bad, f"pass-through node `contiguous`: shares the producer's Metrics object={ma is mh}; recorded backward mean|g|={None if ma.bwd is None else ma.bwd.mean_abs}, true value {want_a}"
+        return False, "no concrete replay rule; see the verifier output in the replay file"
+
+    def replay_c19(rj):
+        import torch.fx as fx
+        from unit_scaling.transforms import _track_scales as ts
+
+        ob = rj["obligation"]
+        if "_prune" in ob and "never_raises" in ob:
+            msgs = []
+            for label, mk_args in (("slice bound", lambda x, n: (x, (Ellipsis, slice(None, n, None)))), ("nested list", lambda x, n: ([x, n],)), ("dict value", lambda x, n: (x, {"k": n}))):
+                g = fx.Graph()
+                x = g.placeholder("x")
+                n = g.call_function(torch.neg, (x,))
+                import operator
+
+                u = g.call_function(operator.getitem if label == "slice bound" else torch.cat if label == "nested list" else dict, mk_args(x, n))
+                g.output(u)
+                try:
+                    ts._prune(g, n, x)
+                    g.lint()
+                except Exception as e:
+                    msgs.append(f"{label}: {type(e).__name__}: {e}")
+            return bool(msgs), "; ".join(msgs)[:400] or "pruning rewrites nested uses"
+        if "same_scale" in ob or "prune_same_scale" in ob:
+            D = ts.Metrics.Data
+            bad = []
+            for a, b in ((1e-10, 4e-10), (3e-9, 1e-9), (1.0, 1.0 + 2**-20), (1.0, 1.5)):
+                da, db = D(a, 0, 0, 0, 0, 1), D(b, 0, 0, 0, 0, 1)
+                got = ts._directions_same_scale(da, db, 2**-16)
+                want = abs(a - b) <= 2**-16 * max(abs(a), abs(b))
+                if bool(got) != want:
+                    bad.append(f"mean|x| {a} vs {b}: same_scale={bool(got)}, |a-b| <= rtol*max is {want}")
+            return bool(bad), "; ".join(bad) or "same-scale predicate is the relative test"
+        return False, "no concrete replay rule; see the verifier output in the replay file"
+
+    handler(lambda rj: rj["job"].startswith("c17:"))(replay_c17)
+    handler(lambda rj: rj["job"].startswith("c18:"))(replay_c18)
+    handler(lambda rj: rj["job"].startswith("c19:"))(replay_c19)
+    handler(lambda rj: rj["job"].startswith("c15:quantise_"))(replay_ste_cache)
     handler(lambda rj: rj["job"].startswith("c15:"))(replay_c15)
     handler(lambda rj: rj["job"].startswith("mod:") and ("Depth" in rj["job"] or "depth" in rj["obligation"]))(replay_depth)
     handler(lambda rj: rj["job"].startswith("mod:"))(replay_module)
